@@ -10,6 +10,7 @@
 #include <cstring>
 #include <algorithm>
 #include <cxxabi.h>
+#include <dirent.h>
 #include <fcntl.h>
 #include <poll.h>
 #include <sys/mman.h>
@@ -903,6 +904,60 @@ namespace sim
                 return 3;
             }
             return 0;
+        }
+        // corpus mode: re-execute every committed replay file of this property that was recorded by this engine and
+        // build (violations found earlier - repaired defects and seeded changes); any that reproduces is a violation
+        if (!o.get("corpus").empty())
+        {
+            e.init(o);
+            std::vector<std::string> files;
+            if (DIR *d = opendir(o.get("corpus").c_str()))
+            {
+                while (struct dirent *de = readdir(d))
+                {
+                    std::string n = de->d_name;
+                    if (n.compare(0, o.prop.size() + 1, o.prop + "-") == 0 && n.size() > 5 && n.compare(n.size() - 5, 5, ".json") == 0)
+                        files.push_back(o.get("corpus") + "/" + n);
+                }
+                closedir(d);
+            }
+            std::sort(files.begin(), files.end());
+            std::vector<Known> known = loadKnown(o.known);
+            std::set<std::string> knownPrinted;
+            int ran = 0, bad = 0, knownHits = 0;
+            for (auto &f : files)
+            {
+                Json rf;
+                try
+                {
+                    rf = Json::parseFile(f);
+                }
+                catch (std::exception &)
+                {
+                    continue;
+                }
+                if (rf.gets("engine") != e.name() || rf.gets("variant") != o.variant)
+                    continue;
+                CaseResult r = runIsolated(rf["plan"], 0);
+                ran++;
+                if (r.vclass.empty())
+                    continue;
+                if (const Known *k = matchKnown(known, o.prop, r.vclass))
+                {
+                    knownHits++;
+                    if (knownPrinted.insert(k->signature).second)
+                        printf("KNOWN-FINDING: property=%s %s [%s] (corpus replay %s: %s)\n", o.prop.c_str(), k->what.c_str(), k->signature.c_str(),
+                               f.c_str(), r.detail.c_str());
+                    continue;
+                }
+                bad++;
+                printf("violation class=\"%s\" corpus replay %s: %s\n", r.vclass.c_str(), f.c_str(), r.detail.c_str());
+                printf("VIOLATION property=%s replay=%s\n", o.prop.c_str(), f.c_str());
+            }
+            printf("%s %s/%s corpus: %d replay file(s) re-executed, %d violation(s), %d known\n", o.prop.c_str(), e.name().c_str(), o.variant.c_str(), ran,
+                   bad, knownHits);
+            fflush(stdout);
+            return bad ? 1 : 0;
         }
 
         if (o.prop.empty())
